@@ -207,7 +207,7 @@ def run(ctx):
                 raise lib.ModelFailure("trace %s is truncated (driver died outside a recorded call)" % t)
         missing = [k for k in KINDS if k not in seen["kinds"]]
         if (len(seen["tof"]) < 3 or len(seen["norm"]) < 5 or not {1, 2, 3, 4} <= seen["N"] or len(seen["fill"]) < 3 or missing
-                or len(seen["flags"]) < 18 or seen["refused"] < 100 or len(seen["real_sw"]) < 4 or len(seen["real_kinds"]) < 6 or len(seen["lm"]) < 8 or len(seen["patlak"]) < 6 or len(seen["regeo"]) < 10):
+                or len(seen["flags"]) < 18 or seen["refused"] < 100 or len(seen["real_sw"]) < 4 or len(seen["real_kinds"]) < 6 or len(seen["lm"]) < 8 or len(seen["patlak"]) < 6 or len(seen["regeo"]) < 8):
             raise lib.ModelFailure("recorded traces do not cover the option space: %s missing=%s" % ({k: (sorted(map(str, v)) if isinstance(v, set) else v) for k, v in seen.items()}, missing))
     ctx.extra["objects"] = nobj
     ctx.exhaustive = False
